@@ -181,6 +181,15 @@ func runC13(c *Ctx) {
 	}
 
 	r3 := c.Rule("R3", "Update applies the delta to the freshly read count under the store lock (released by defer)", 3)
+	countMergeRule(c, r3)
+}
+
+// countMergeRule (C13.R3, shared by C06.R2): fs.StoreRepository.Update merges the caller's delta into the
+// freshly read count of the same store, under the store lock.
+func countMergeRule(c *Ctx, r3 string) {
+	w := c.W
+	fu := w.Fn("fs.StoreRepository.Update")
+	c.Analysed(fu)
 	{
 		g := w.G(fu)
 		info := fu.Pkg.TypesInfo
